@@ -241,6 +241,8 @@ def C13(prog: Program, run: Run, tier: str) -> None:
     run.add(specific.rule_fill(prog), "R-FILL one fill resolver for uncovered chunks, covered chunks and the in-memory path; precedence dst_nodata > src_nodata > NaN(float) > 0; missing dependency => constant fill block")
     run.add(api.rule_api(prog, {"_dask", "_blocks", "warp"} if tier == "quick" else None), "R-API code path exists in the installed numpy/dask/rasterio")
     run.add(specific.rule_empty(prog), "R-EMPTY disjoint rasters cannot raise from an empty footprint")
+    run.add(valueobj.rule_taskname(prog, {"_dask"}), "R-CACHE NAMECOMPLETE the layer name of a hand-built array graph is unique or a token of every parameter that reaches the task definitions")
+    run.add(_only(rounding.rule_round(prog, {"geobox"}), "geobox:GeoboxTiles") + _only(rounding.rule_clamps(prog), "geobox:GeoboxTiles"), ROUND_DESC)
     run.add([i for i in extra.tile_query(prog) if "grid_intersect" in i.construct or "_check_linear" in i.construct],
             "R-GUARDSEQ the chunk dependency graph: linear path maps each tile's own box through A and rounds outwards, general path queries with the tile's own extent")
     run.add(_fwd(prog, {"_dask", "warp"}), FWD_DESC)
@@ -257,6 +259,7 @@ def C14(prog: Program, run: Run, tier: str) -> None:
     run.add([i for i in valueobj.rule_valueobj(prog, ["math:Bin1D", "gridspec:GridSpec"]) if "EQCOMPLETE" in i.construct or "EQIDENT" in i.construct], "R-VALUEOBJ Bin1D equality complete over its slots")
     run.add(_only(crsguard.rule_crsguard(prog, {"gridspec"}), "gridspec:"), "R-CRSGUARD polygon query reconciles the CRS first")
     run.add(_fwd(prog, {"gridspec"}), FWD_DESC)
+    run.add(extra.gridspec_polygon_filter(prog), "R-GUARDSEQ a tile is yielded for a polygon query only under the not-disjoint test against that tile's extent")
     run.floor("R-AXIS|", 20)
 
 
@@ -316,7 +319,8 @@ def C20(prog: Program, run: Run, tier: str) -> None:
 GENERIC_DESC = (
     "R-DUP no boolean operator / comparison / if-elif chain / conditional expression repeats an operand (the second copy "
     "was meant to test something else); R-TRUTHY no optional-number parameter is tested by truth value (0 is a value, not None); "
-    "R-ABSEPS the affine library's absolute-epsilon predicates (is_rectilinear, is_identity, ...) are never applied to a pixel->world affine"
+    "R-ABSEPS the affine library's absolute-epsilon predicates (is_rectilinear, is_identity, ...) are never applied to a pixel->world affine; "
+    "R-MEMO a loop-local memo dict stores values that depend on the loop only through the key"
 )
 
 
@@ -344,7 +348,7 @@ def _with_generic(pid, fn):
     def wrapped(prog: Program, run: Run, tier: str) -> None:
         fn(prog, run, tier)
         mods = {m for m in ANCHORED.get(pid, set()) if m in prog.modules}
-        run.add(generic.rule_dup(prog, mods) + generic.rule_truthy(prog, mods) + generic.rule_abseps(prog, mods), GENERIC_DESC)
+        run.add(generic.rule_dup(prog, mods) + generic.rule_truthy(prog, mods) + generic.rule_abseps(prog, mods) + generic.rule_localmemo(prog, mods), GENERIC_DESC)
 
     wrapped.__name__ = pid
     wrapped.__doc__ = fn.__doc__
